@@ -137,7 +137,7 @@ def regen():
     """run every translator; returns {name: dict(ok, error, shas)}"""
     sys.path.insert(0, os.path.join(VERIF, 'tools', 'translate'))
     res = {}
-    for name in ('tr_sym', 'tr_geom', 'tr_cache', 'tr_krylov', 'tr_sweep', 'tr_step', 'tr_gates', 'tr_window'):
+    for name in ('tr_sym', 'tr_geom', 'tr_cache', 'tr_krylov', 'tr_sweep', 'tr_step', 'tr_gates', 'tr_window', 'tr_deleg'):
         path = os.path.join(VERIF, 'tools', 'translate', name + '.py')
         if not os.path.exists(path):
             continue
